@@ -1,7 +1,7 @@
 """C09 - general convex constraints hold at every evaluation up to Dykstra's tolerance.
 
 alphabet: all non-empty subsets of size <=3 of a bank of sets with common interior (two balls, three half-spaces incl.
-          a nearly parallel pair, one box) x {no bounds, bounds} x x0 {interior, far outside, two boundary points} x
+          a nearly parallel pair, one box) x {no bounds, bounds} x x0 {interior, far outside, two boundary points, the same two pushed 1e-7 (translated: 1e-3) outwards} x
           {restarts off, soft} (n=2; thorough adds n=3, hard restarts and single answer deviations)
 oracle  : every evaluated point after the first is byte-identical to an output of the wrapped alternating-projection
           routine; when that call stopped by its rule (sweeps < max_iter) its distance to each of the p sets is
